@@ -9,6 +9,7 @@ import (
 	"context"
 	"encoding/json"
 	"fmt"
+	"io"
 	"os"
 	"os/exec"
 	"path/filepath"
@@ -153,6 +154,10 @@ func runTLC(o tlcOpts) (*tlcResult, error) {
 			tail = tail[len(tail)-300:]
 		}
 	}
+	if sc.Err() != nil {
+		tail = append(tail, "harness: reading TLC output failed: "+sc.Err().Error())
+	}
+	_, _ = io.Copy(io.Discard, stdout) // never leave TLC blocked on a full pipe
 	werr := cmd.Wait()
 	res.Wall = time.Since(start).Seconds()
 	res.Output = strings.Join(tail, "\n")
